@@ -366,7 +366,8 @@ def draw_points(seed: int, regime: str, n_channels: int, n_poles: int, batch: in
     Channel masses > 0, widths > 0, residues >= 0; s above the highest threshold (unless
     `s_below`: then half of the batch has s between 0 and the highest threshold).  Pole
     masses lie above every threshold except in the regime ``subthreshold_pole`` (at least
-    one pole below the highest threshold in every point).
+    one pole below the highest threshold in every point; in a quarter of the points that
+    pole has zero residue in the channels it cannot decay to).
     """
     rng = np.random.default_rng(seed)
     b, nc, npo = batch, n_channels, n_poles
@@ -408,6 +409,12 @@ def draw_points(seed: int, regime: str, n_channels: int, n_poles: int, batch: in
     if s_below:
         below = rng.random(b) < 0.5
         s = np.where(below, thr_max * rng.uniform(0.02, 0.999, b), s)
+    if regime == "subthreshold_pole":
+        # a quarter of the points: the sub-threshold pole is decoupled (gamma = 0) from every channel whose
+        # threshold lies above it, so that it is harmless
+        decouple = rng.random(b) < 0.25
+        below = m[:, :, None] < (m_a + m_b)[:, None, :]
+        resid = np.where(decouple[:, None, None] & below, 0.0, resid)
     out = {
         "s": s,
         "m": m,
